@@ -35,7 +35,7 @@ fn parse_ids(ans: &str) -> Option<Vec<usize>> {
 
 fn start_cmd(rng: &mut Rng, r: &Rose) -> String {
     let seed = rng.next() % 100_000;
-    let how = *rng.pick(&["api", "bfs", "tomb", "parse"]);
+    let how = *rng.pick(&["api", "bfs", "tomb", "parse", "grown", "grown"]);
     format!("real.build\t{how}\t{}\t{seed}", r.canon())
 }
 
